@@ -79,6 +79,10 @@ enum Site : int {
   kResPoolAfterAcquire = 41,
   // distributed rw lock
   kDrwTryLockBetweenSlots = 42,
+  // added later
+  kFutureRunBeforeNotify = 43,
+  kGraphAfterNodeRun = 44,
+  kGraphBetweenDependents = 45,
   kNumSites = 48
 };
 } // namespace verif
